@@ -18,7 +18,7 @@ from concurrent.futures import ThreadPoolExecutor
 import vbuild
 
 VERIF = os.environ.get("VERIF_DIR") or os.path.dirname(os.path.dirname(os.path.abspath(__file__)))
-FAMILIES = ["C01", "C02", "C03", "C05", "C07", "C08", "C12", "C14"]
+FAMILIES = ["C01", "C02", "C03", "C05", "C07", "C08", "C09", "C12", "C13", "C14", "C18"]
 CONFIGS_QUICK = [
     ((), "release"),
     (("checks",), "release"),
@@ -321,7 +321,7 @@ def main(repo, tag, rest, replay):
             "components_stub": ["SimDisk, recording sinks (as in the replayed families)"],
             "exhaustive": False,
         },
-        "assumptions": ["clean arguments only (dirty arguments panic by design under `checks`)", "u8 readers do not use decoding tables in the replayed C03 runs (recorded known finding)"],
+        "assumptions": ["clean arguments only (dirty arguments panic by design under `checks`)", "u8 readers do not use decoding tables in the replayed C03 / C09 runs (recorded known finding)"],
         "wall_s": round(wall, 2),
         "violations": len(viol_lines),
     }
